@@ -163,3 +163,28 @@ PROPS = {
         "racing accesses are inside connect-go is a violation; distinct = distinct scheduler-log hash",
         6000, 100000, race=True, race_also=["C14", "C15", "C08"], quick_extra={"race_runs": 600}, thorough_extra={"race_runs": 20000}),
 }
+
+# Scenario families added after the rule texts above were written (hunt waves 2 and 3, DESIGN.md 9).
+TRANSPORT_HABITS = ("transport habits drawn per call: in a sixth of the non-bidi calls a ResponseWriter without Flush (on HTTP/1.1 net/http's rule "
+                    "for unchunked responses applies: trailers added after the first write are lost unless announced), in half of the HTTP/1.1 calls a "
+                    "server that closes the connection on a client that keeps uploading after it has the answer")
+ADDENDA = {
+    "C01": "codec marshal failures (plain and wrapping io.EOF) on some messages; " + TRANSPORT_HABITS,
+    "C02": "details whose type is not linked into the binary or that have no JSON form (the two listed open findings); errors received from another "
+           "call and passed on; " + TRANSPORT_HABITS,
+    "C04": "after a faulted delivery the program may keep receiving: the outcome must stay an error",
+    "C05": "world (0) includes gateway handlers that return the Response, or pass on the Request, they got from a backend call in another protocol and "
+           "encoding: the hop's own protocol and entity headers must describe the hop; " + TRANSPORT_HABITS,
+    "C06": "a third of the non-2xx answers (not for unary Connect calls) come from a server that flushes its answer and reads the request to its end "
+           "before ending the response; over HTTP/2 the transport has stopped uploading at the sight of the status, so that end comes only if the "
+           "client lets go of the response",
+    "C08": "some Requests are re-sent through a second client with another compression set; some compression constructors are nil",
+    "C11": "unary Connect error bodies over the client's read limit or undecodable (the metadata must survive)",
+    "C13": "one client may be misconfigured so that every call fails locally (each call must get its own error value); clients may annotate the errors "
+           "they receive",
+    "C14": "calls refused by the protocol layer (compression the handler lacks), first messages that cannot be marshalled, programs that abandon a "
+           "cancelled call without closing it, lock-step bidi programs; " + TRANSPORT_HABITS,
+    "C15": "some messages cannot be marshalled: an operation started after the instant must still report the context",
+}
+for _k, _v in ADDENDA.items():
+    PROPS[_k]["rule"] += "; ALSO: " + _v
